@@ -230,6 +230,12 @@ static int fault_for(int fn, int k, trec *t)
   if (W->faults_disabled) return 0;
   for (int i = 0; i < W->nfault; i++) {
     wfault *f = &W->fault[i];
+    if (f->side == w_side && f->fn == fn && f->k == -1) {  // k = -1: every call fails
+      t->flags |= TF_INJECTED;
+      t->err = f->err;
+      f->fired = 1;
+      return f->err;
+    }
     if (f->side == w_side && f->fn == fn && f->k == k && !f->fired) {
       f->fired = 1;  // one shot (shared memory: a later child of the same case does not re-fire it)
       t->flags |= TF_INJECTED;
@@ -582,7 +588,7 @@ int __wrap_open64(const char *path, int flags, ...)
 int __wrap_fileno(FILE *f)
 {
   int k = next_k(F_fileno);
-  trec *t = rec(F_fileno, k, 0, 0, 0);
+  trec *t = rec(F_fileno, k, (long) (uintptr_t) f, 0, 0);
   int e = fault_for(F_fileno, k, t);
   if (e) {
     t->ret = -1;
